@@ -32,12 +32,14 @@ DOCS = [
     ("attrpath-interleaved", "{\n  a.b = 1;\n  d = 3;\n  a.c.k = 2;\n  e = [ 1 2 ];\n}\n", None),
     ("attrpath-deep", "{\n  a.b.c.d = 1;\n  e = 3;\n}\n", None),
     ("attrpath-deep-family", "{\n  a.b.c.d = 1;\n  a.b.x = 2;\n  n.m.p.q.k = 3;\n  e = 4;\n}\n", None),
+    ("attrpath-mixed-spelling", "{\n  a.b.c = 1;\n  a.\"b\".d = 2;\n  \"a\".x = 3;\n  e = 4;\n}\n", None),
     ("attrpath-in-nested", "{\n  n = {\n    p.q = 1;\n    p.r = 2;\n  };\n  m = 5;\n}\n", None),
     ("lambda", "{ pkgs }:\n{\n  a = 1;\n  b = {\n    c = 2;\n  };\n}\n", None),
     ("call", "f {\n  a = 1;\n  b.c = 2;\n}\n", None),
     ("scoped", "let\n  v = 1;\n  w = {\n    k = 2;\n  };\nin\n{\n  a = 3;\n  b = 4;\n}\n", "scope"),
     ("scoped-attrpath", "let\n  v.x = 1;\n  u = 5;\nin\n{\n  a = 3;\n}\n", "scope"),
     ("ident-body", "let\n  cfg = {\n    a = 1;\n    b = 2;\n  };\n  other = 7;\nin\ncfg\n", "alias:cfg"),
+    ("ident-body-with", "let\n  cfg = {\n    a = 1;\n    b = 2;\n  };\nin\nwith { cfg = { z = 9; }; };\ncfg\n", "alias:cfg"),
     ("inline", "{ a = 1; }\n", None),
     ("empty", "{ }\n", None),
 ]
